@@ -4,6 +4,7 @@ import (
 	"fmt"
 	"grog/internal/config"
 	"grog/internal/dag"
+	"grog/internal/label"
 	"grog/internal/model"
 	"strings"
 )
@@ -25,6 +26,8 @@ func (s *Selector) SelectTargetsForBuild(
 ) (int, int, error) {
 
 	platformSkipped := 0
+	// Nodes that have been selected (and platform-checked) together with all of their ancestors.
+	visited := make(map[label.TargetLabel]bool)
 	for _, node := range graph.GetNodes() {
 		// Match pattern and test flag
 		if s.nodeMatchesFilters(node) {
@@ -34,7 +37,11 @@ func (s *Selector) SelectTargetsForBuild(
 			}
 
 			node.Select()
-			if err := s.selectAllAncestorsForBuild(graph, []string{node.GetLabel().String()}, node); err != nil {
+			if visited[node.GetLabel()] {
+				continue // Already handled as a dependency of another match
+			}
+			visited[node.GetLabel()] = true
+			if err := s.selectAllAncestorsForBuild(graph, visited, []string{node.GetLabel().String()}, node); err != nil {
 				return 0, 0, err
 			}
 		}
@@ -51,14 +58,18 @@ func (s *Selector) SelectTargetsForBuild(
 	return selectedCount, platformSkipped, nil
 }
 
-// selectAllAncestorsForBuild recursively selects all ancestors of the given node
-// and returns the number of selected targets.
+// selectAllAncestorsForBuild recursively selects all ancestors of the given node.
+// Every node is visited once: a node in visited has already been selected together with its ancestors.
 func (s *Selector) selectAllAncestorsForBuild(
 	graph *dag.DirectedTargetGraph,
+	visited map[label.TargetLabel]bool,
 	depChain []string,
 	node model.BuildNode,
 ) error {
 	for _, ancestor := range graph.GetDependencies(node) {
+		if visited[ancestor.GetLabel()] {
+			continue
+		}
 		nextChain := append(append([]string{}, depChain...), ancestor.GetLabel().String())
 		if !nodeMatchesPlatform(ancestor) {
 			depChainStr := strings.Join(nextChain[1:], " -> ")
@@ -66,8 +77,9 @@ func (s *Selector) selectAllAncestorsForBuild(
 				depChain[0], depChainStr, config.Global.GetPlatform())
 		}
 
+		visited[ancestor.GetLabel()] = true
 		ancestor.Select()
-		if err := s.selectAllAncestorsForBuild(graph, nextChain, ancestor); err != nil {
+		if err := s.selectAllAncestorsForBuild(graph, visited, nextChain, ancestor); err != nil {
 			return err
 		}
 	}
